@@ -32,6 +32,7 @@ fn flip_sep(b: &Bdd, f: Option<usize>) -> Bdd {
 }
 
 pub fn run(key: &str, a: &[String], out: &mut Out) {
+    out.begin(key, a);
     match key {
         "C04.bin" => {
             let (l, r) = (Bdd::from_string(&a[2]), Bdd::from_string(&a[3]));
